@@ -6,7 +6,7 @@ monitor (a Coq function over observable traces, extracted; `modelrun monitor <id
 evaluated on the implementation's own traces of an exhaustive model-guided exploration and
 of random histories; the first failing history is shrunk by delta debugging, re-executing
 every candidate on the real crate."""
-import json, os, subprocess, tempfile
+import json, os, shutil, subprocess, tempfile
 
 ROOT = os.path.dirname(os.path.dirname(os.path.abspath(__file__)))
 BUILD = os.path.join(ROOT, "build")
@@ -14,13 +14,24 @@ MODELRUN = os.path.join(BUILD, "ocaml", "modelrun")
 HARNESS = os.path.join(BUILD, "harness-target", "debug", "fi-harness")
 
 
+HARNESS_RELEASE = os.path.join(BUILD, "harness-target", "release", "fi-harness")
+
+
+def harness_for(flavour):
+    """flavour may carry the suffix @release (thorough tier: no debug assertions, wrapping arithmetic)"""
+    if flavour.endswith("@release"):
+        return HARNESS_RELEASE, flavour.split("@")[0]
+    return HARNESS, flavour
+
+
 def _run_monitor(mon_id, lines, flavour, workdir):
     """returns list of (prefix_len, history_line) failing on the implementation"""
     hist = os.path.join(workdir, "m.hist"); obs = os.path.join(workdir, "m.obs")
     with open(hist, "w") as f:
         f.write("\n".join(lines) + "\n")
+    binary, base = harness_for(flavour)
     with open(hist) as hf, open(obs, "w") as of:
-        subprocess.run([HARNESS, flavour], stdin=hf, stdout=of, stderr=subprocess.DEVNULL)
+        subprocess.run([binary, base], stdin=hf, stdout=of, stderr=subprocess.DEVNULL)
     r = subprocess.run([MODELRUN, "monitor", str(mon_id), hist, obs], capture_output=True, text=True)
     out = []
     for l in r.stdout.splitlines():
@@ -70,8 +81,15 @@ def search(prop, spec, corr, tier, seed):
     mon = spec.get("monitor")
     if not mon:
         return None
-    from registry import RUNS
     workdir = tempfile.mkdtemp(prefix="search-", dir=BUILD)
+    try:
+        return _search(prop, spec, corr, tier, seed, mon, workdir)
+    finally:
+        shutil.rmtree(workdir, ignore_errors=True)
+
+
+def _search(prop, spec, corr, tier, seed, mon, workdir):
+    from registry import RUNS
     budget = mon.get("states", 60000) * (5 if tier == "thorough" else 1)
     for run in RUNS:
         if run["name"] not in mon["runs"]:
@@ -91,13 +109,17 @@ def search(prop, spec, corr, tier, seed):
         if run["prim"] == "mpmc":
             from check import retag_line
             lines = [retag_line(l) for l in lines]
-        for fl in run["flavours"]:
+        fls = list(run["flavours"])
+        if tier == "thorough" and os.path.exists(HARNESS_RELEASE) and run["prim"] != "ringbuf":
+            fls += [f + "@release" for f in run["flavours"]]
+        for fl in fls:
             fails = _run_monitor(mon["id"], lines, fl, workdir)
             if fails:
                 fails.sort(key=lambda x: (x[0], len(x[1])))
                 small = shrink(mon["id"], fails[0][1], fl, workdir)
                 # replay the shrunk history once more for the record
-                obs = subprocess.run([HARNESS, fl], input=small + "\n", capture_output=True, text=True).stdout.strip()
+                binary, base = harness_for(fl)
+                obs = subprocess.run([binary, base], input=small + "\n", capture_output=True, text=True).stdout.strip()
                 model = subprocess.run([MODELRUN, "print", "-"], input=small + "\n", capture_output=True, text=True).stdout.strip()
                 return dict(history=small, flavour=fl, monitor=mon["id"], run=run["name"],
                             failing_histories=len(fails), implementation_trace=obs.split(";"),
@@ -146,6 +168,13 @@ def followup(prop, spec, corr, tier, seed):
     if not div:
         return None
     workdir = tempfile.mkdtemp(prefix="follow-", dir=BUILD)
+    try:
+        return _followup(prop, spec, tier, mon, div, workdir)
+    finally:
+        shutil.rmtree(workdir, ignore_errors=True)
+
+
+def _followup(prop, spec, tier, mon, div, workdir):
     depth = "3" if tier == "thorough" else "2"
     for (rname, fl), hists in div.items():
         base = os.path.join(workdir, "base.hist")
